@@ -90,6 +90,11 @@ TCaRekey == /\ Is("CaRekey") /\ Adv
             /\ updK' = updK + 1
             /\ UNCHANGED <<cfg, img, justified, persisted, loading, snapImg, snapCa, canConv, updC, renewing, regd>>
 
+(* the CA answered an account update it could verify with an error of its own (invalidContact ...): this renewal may fail *)
+TCaRefused == /\ Is("CaRefused") /\ Adv
+              /\ canConv' = FALSE /\ bad' = {}
+              /\ UNCHANGED <<cfg, img, ca, justified, persisted, loading, snapImg, snapCa, updC, updK, renewing, regd>>
+
 TCaForget == /\ Is("CaForget") /\ Adv
              /\ ca' = [ca EXCEPT ![Ev.ep] = NoCa] /\ bad' = {} /\ regd' = regd \ {Ev.ep}
              /\ UNCHANGED <<cfg, img, justified>> /\ Frame
@@ -97,6 +102,10 @@ TCaForget == /\ Is("CaForget") /\ Adv
 TRenewEnd == /\ Is("RenewEnd") /\ Adv
              /\ LET e == Ev.ep IN
                 bad' = Chk("C11_InStepAfterRenew", (canConv => Ev.ok) /\ (Ev.ok => InStep(e)))
+                    \* every answer to a roll-over was delivered in these histories: the key on file is the key the CA holds
+                    \cup Chk("C11_RollOverByRecordedKey",
+                             ((~snapCa[e].exists \/ snapImg.ep[e].url = NoVal \/ snapCa[e].key = snapImg.ep[e].kH)
+                              /\ ca[e].exists /\ img.ep[e].url # NoVal) => ca[e].key = img.ep[e].kH)
                     \cup Chk("C11_EndpointsIndependent",
                              \A o \in Endpoints \ {e} : /\ img.ep[o].url = snapImg.ep[o].url /\ img.ep[o].kH = snapImg.ep[o].kH
                                                         /\ img.ep[o].cH = snapImg.ep[o].cH /\ ca[o] = snapCa[o])
@@ -109,7 +118,7 @@ TCorrupt == /\ Is("CorruptExit") /\ Adv
             /\ UNCHANGED <<cfg, img, ca, justified>> /\ FrameR
 
 TNext == TReset \/ TStart \/ TSaved \/ TLoaded \/ TRenewStart \/ TCaNew \/ TCaUnknown \/ TCaUpdate \/ TCaRekey
-         \/ TCaForget \/ TRenewEnd \/ TCorrupt
+         \/ TCaForget \/ TCaRefused \/ TRenewEnd \/ TCorrupt
 Report == (bad' \cap Enforce # {}) => PrintT(<<"BAD", bad' \cap Enforce, l>>)
 TSpec == TInit /\ [][TNext /\ Report]_tvars
 Accepted == LET d == TLCGet("stats").diameter IN
